@@ -13,7 +13,7 @@ import Pandora.Model.C15Tmpl
 
 namespace Pandora.Model.C15
 
-inductive COp where
+inductive PubOp where
   | load            -- `tmpl, ok := cache.Load(key)`
   | branch          -- `if !ok {` : on a hit the statements up to `join` are skipped
   | parse           -- `tmpl, err = template.New(…).Parse(text)`: a NEW object, parsed
@@ -25,7 +25,7 @@ inductive COp where
   | parseShared     -- seeded: `tmpl.Parse(text)` on the object that is already in the cache
 deriving Repr, DecidableEq
 
-def ofGOp : GOp → COp
+def ofGOp : GOp → PubOp
   | .load => .load
   | .parse => .parse
   | .chk => .chk
@@ -33,11 +33,11 @@ def ofGOp : GOp → COp
   | .ret => .ret
 
 /-- the statement list of a `GetCode`: head, `if !ok {` miss `}`, tail -/
-def ofGetCode (gc : GetCode) : List COp :=
+def ofGetCode (gc : GetCode) : List PubOp :=
   gc.head.map ofGOp ++ [.branch] ++ gc.miss.map ofGOp ++ [.join] ++ gc.tail.map ofGOp
 
 structure PTh where
-  code : List COp
+  code : List PubOp
   tmpl : Option Nat := none        -- the local `tmpl`: an object of the heap
   ok : Bool := false
   returned : Option (Option Nat) := none
@@ -50,7 +50,7 @@ structure PSys where
   cache : Option Nat               -- the slot of the key
   ths : Nat → PTh
 
-def PSys.init (code : List COp) : PSys := { heap := [], cache := none, ths := fun _ => { code } }
+def PSys.init (code : List PubOp) : PSys := { heap := [], cache := none, ths := fun _ => { code } }
 
 def setTh (f : Nat → PTh) (t : Nat) (x : PTh) : Nat → PTh := fun i => if i = t then x else f i
 
@@ -61,7 +61,7 @@ def PSys.step (s : PSys) (t : Nat) : PSys :=
   | [] => s
   | .load :: r => { s with ths := setTh s.ths t { th with code := r, tmpl := s.cache, ok := s.cache.isSome } }
   | .branch :: r =>
-    let r' : List COp := if th.ok then (r.dropWhile (fun o => o != COp.join)).drop 1 else r
+    let r' : List PubOp := if th.ok then (r.dropWhile (fun o => o != PubOp.join)).drop 1 else r
     { s with ths := setTh s.ths t { th with code := r' } }
   | .parse :: r => { s with heap := s.heap ++ [true], ths := setTh s.ths t { th with code := r, tmpl := some s.heap.length } }
   | .chk :: r => { s with ths := setTh s.ths t { th with code := r } }
@@ -85,6 +85,6 @@ def PSys.step (s : PSys) (t : Nat) : PSys :=
 def PSys.run (s : PSys) (sched : List Nat) : PSys := sched.foldl PSys.step s
 
 /-- the order of the seeded change: publish an empty object, parse it in place when it was ours -/
-def publishFirst : List COp := [.publishEmpty, .branch, .parseShared, .chk, .join, .ret]
+def publishFirst : List PubOp := [.publishEmpty, .branch, .parseShared, .chk, .join, .ret]
 
 end Pandora.Model.C15
